@@ -33,7 +33,8 @@ type cancelSpec struct {
 	Jitter      int    `json:"jitter_us"` // free-running variant: cancel after this many microseconds instead of at a hook
 	Allow       bool   `json:"allow_failure"`
 	Interactive bool   `json:"interactive,omitempty"`
-	Nested      bool   `json:"nested,omitempty"` // the whole pipeline is included by a stage of an outer pipeline
+	TaskTimeout bool   `json:"task_timeout,omitempty"` // the tasks have a (long) timeout of their own
+	Nested      bool   `json:"nested,omitempty"`       // the whole pipeline is included by a stage of an outer pipeline
 }
 
 type cancelHarness struct {
@@ -114,6 +115,9 @@ func blocker(kind, pidfile string) string {
 		return "i=0; while [ $i -lt 6000000 ]; do i=$((i+1)); done"
 	case "ignore-int":
 		return fmt.Sprintf("sh -c 'trap \"\" INT; echo $$ >> %s; exec sleep 30'", pidfile)
+	case "ticker":
+		// ignores the interrupt and keeps reporting that it is alive (TICK tokens in the trace next to the pid file)
+		return fmt.Sprintf("sh -c 'trap \"\" INT; echo $$ >> %s; i=0; while [ $i -lt 100 ]; do printf \"TICK\\n\" >> %s; sleep 0.1; i=$((i+1)); done'", pidfile, strings.TrimSuffix(pidfile, "pids")+"trace")
 	}
 	return fmt.Sprintf("sh -c 'echo $$ >> %s; exec sleep 30'", pidfile)
 }
@@ -199,11 +203,19 @@ func modeCancel1(a args) {
 		if sp.Point == "before-hook" {
 			t.Before = []string{tok("B:" + id)}
 		}
+		if sp.Point == "during-condition" {
+			// the cancellation arrives while the task's own condition (a command like any other) is being evaluated
+			t.Condition = tok("K:"+id) + "; " + blocker(sp.Cmd, pidfile)
+		}
 		if sp.Point == "after-hook" {
 			// the cancellation arrives while the task's after-hook is running
 			t.After = []string{tok("A:"+id+":S") + "; " + blocker(sp.Cmd, pidfile) + "; " + tok("A:"+id+":E"), tok("A2:" + id)}
 		}
 		t.AllowFailure = sp.Allow
+		if sp.TaskTimeout {
+			to := 90 * time.Second
+			t.Timeout = &to
+		}
 		return t
 	}
 	var tasks []*task.Task
@@ -366,11 +378,14 @@ func modeCancel1(a args) {
 			return
 		}
 		doCancel()
-	case "during-command", "after-hook":
+	case "during-command", "after-hook", "during-condition":
 		deadline := time.Now().Add(15 * time.Second)
 		for {
 			n := 0
 			for _, f := range strings.Fields(h.ReadFile(trace)) {
+				if sp.Point == "during-condition" && strings.HasPrefix(f, "K:") {
+					n++
+				}
 				if sp.Point == "during-command" && strings.HasPrefix(f, "S:") && strings.HasSuffix(f, ":0") {
 					n++
 				}
@@ -454,6 +469,21 @@ func modeCancel1(a args) {
 	case <-time.After(cancelBound):
 		timedOut("Run after Cancel")
 	}
+	// ... and cancelling again afterwards (the refused run left nothing in flight) returns as well
+	again := make(chan struct{})
+	go func() {
+		if sp.Via == "scheduler" && sch != nil {
+			sch.Cancel()
+		} else {
+			tr.Cancel()
+		}
+		close(again)
+	}()
+	select {
+	case <-again:
+	case <-time.After(cancelBound):
+		timedOut("Cancel after a refused run")
+	}
 	time.Sleep(20 * time.Millisecond)
 
 	// ---- offline checks over the trace
@@ -485,6 +515,10 @@ func modeCancel1(a args) {
 				if newPass {
 					fail("condition-evaluated-after-cancel-returned", fmt.Sprintf("stage condition %s was executed in a scheduling pass that began after CANCEL_RET", t))
 				}
+			}
+			if i > cret && t == "TICK" {
+				fail("command-still-running-after-cancel-returned", "a command that was in flight wrote to the trace after CANCEL_RET: cancellation returned before the command had been terminated")
+				break
 			}
 			if i > cret && (strings.HasPrefix(t, "S:") || strings.HasPrefix(t, "B:") || strings.HasPrefix(t, "A2:") || (strings.HasPrefix(t, "A:") && strings.HasSuffix(t, ":E"))) {
 				fail("command-started-after-cancel-returned", fmt.Sprintf("token %s appears after CANCEL_RET", t))
